@@ -56,10 +56,15 @@ type harnessResult struct {
 	GlobalWrites map[string]bool
 	Samples     []pathSample
 	Witnesses   []witnessRec
-	Records     map[string]map[string][]interp.InputRec // label -> value -> a witness
+	Records     map[string]map[string]recInfo // label -> value -> a witness
 	Leaked      int
 	WallS       float64
 	MaxDepth    int
+}
+
+type recInfo struct {
+	Inputs []interp.InputRec
+	Prefix []int
 }
 
 type pathSample struct {
@@ -83,7 +88,7 @@ func newHarnessResult(spec HarnessSpec) *harnessResult {
 	return &harnessResult{Spec: spec, Outcomes: map[string]int{}, Obligations: map[string]int{},
 		OblLabels: map[string]map[string]int{}, Reached: map[string]int{}, Funcs: map[string]bool{},
 		Intrinsics: map[string]bool{}, OutOfModel: map[string]int{}, GlobalWrites: map[string]bool{},
-		Records: map[string]map[string][]interp.InputRec{}}
+		Records: map[string]map[string]recInfo{}}
 }
 
 type exploreCfg struct {
@@ -267,10 +272,10 @@ func (hr *harnessResult) absorb(r *interp.PathResult, cfg exploreCfg) {
 	}
 	for _, rec := range r.Records {
 		if hr.Records[rec.Label] == nil {
-			hr.Records[rec.Label] = map[string][]interp.InputRec{}
+			hr.Records[rec.Label] = map[string]recInfo{}
 		}
 		if _, ok := hr.Records[rec.Label][rec.Val]; !ok {
-			hr.Records[rec.Label][rec.Val] = r.Witness
+			hr.Records[rec.Label][rec.Val] = recInfo{r.Witness, r.Decisions}
 		}
 	}
 	if r.HasWitness && (r.Outcome == "ok") {
